@@ -59,7 +59,7 @@ class GeffReader:
         # get node properties names
         nodes_group = expect_group(self.group, _path.NODES)
         if _path.PROPS in nodes_group.keys():
-            node_props_group = zarr.open_group(self.group.store, path=_path.NODE_PROPS, mode="r")
+            node_props_group = zarr.open_group(self.group.store_path, path=_path.NODE_PROPS, mode="r")
             self.node_prop_names: list[str] = [*node_props_group.group_keys()]
         else:
             self.node_prop_names = []
@@ -67,7 +67,7 @@ class GeffReader:
         # get edge property names
         edges_group = expect_group(self.group, _path.EDGES)
         if _path.PROPS in edges_group.keys():
-            edge_props_group = zarr.open_group(self.group.store, path=_path.EDGE_PROPS, mode="r")
+            edge_props_group = zarr.open_group(self.group.store_path, path=_path.EDGE_PROPS, mode="r")
             self.edge_prop_names: list[str] = [*edge_props_group.group_keys()]
         else:
             self.edge_prop_names = []
@@ -122,7 +122,7 @@ class GeffReader:
         group_path = (
             f"{_path.NODE_PROPS}/{name}" if prop_type == "node" else f"{_path.EDGE_PROPS}/{name}"
         )
-        prop_group = zarr.open_group(self.group.store, path=group_path, mode="r")
+        prop_group = zarr.open_group(self.group.store_path, path=group_path, mode="r")
         values = expect_array(prop_group, _path.VALUES, prop_type)
         prop_dict: ZarrPropDict = {_path.VALUES: values}
         if _path.MISSING in prop_group.keys():
